@@ -7,6 +7,25 @@ _A_NOTE = ('Trusted: CrossHair 0.0.110 proxy semantics and path pruning, z3 5.1.
            'before a VIOLATION is printed.')
 
 CLAIMS = {
+    'C12': dict(
+        engine='A-crosshair',
+        technique='solver-enumerated bounded family (CrossHair + z3 certify the selector space is covered; the text pipeline runs on realised selectors under NoTracing); generated module compiled, executed and compared canonically',
+        text=('For both generators (new_codegen, auto_config_codegen), six configuration shapes (nested; shared node '
+              'and shared list / dict / tuple containers; Partial with ArgFactory arguments and nested Partials; a '
+              'tuple without direct Buildable shared by parents at different depths; a sub-configuration referenced '
+              'twice; a class hierarchy chain with type / function leaves), 37 boundary leaf values (large ints, '
+              'special floats incl. inf / nan / -0.0, complex, strs with quotes / backslash / newline / NUL / '
+              'non-ASCII, bytes, enum members incl. a nested enum class shadowed by a module-level one, types, '
+              'functions, slice, nested tuple, frozenset, set, named tuple, range), six wrapper kinds, '
+              'max_expression_complexity in {None, 0, 1, 2, 3}, include_history on / off, no / inner / middle '
+              'sub-fixture, and tags (none, one, two per argument, all with values): the generator raises (input '
+              'untouched) or the emitted module compiles, runs, and its fixture (as_buildable for the auto_config '
+              'generator) yields a configuration canonically equal to the input (callables, arguments, tags, '
+              'aliasing). For the same leaf set in eight nestings (bare, list, tuple, dict value, dict key, set '
+              'element, nested, named tuple) convert_py_val_to_cst either raises or emits an expression that '
+              'evaluates to a value of the same type and value (NaN by isnan, signed zero by sign). Two listed known '
+              'findings (tags under new_codegen; duplicated sub-fixture parameters).'),
+        note=_A_NOTE + ' Text pipeline: selectors concretised by comparisons, body under NoTracing (symbolic_leaves: false).'),
     'C19': dict(
         engine='B-direct-smt',
         category='model_checking',
